@@ -12,7 +12,8 @@ META = {
             "only if nobody is registered or that consumer is behind; open_stream makes the behaviour dial an unconnected peer "
             "(never a connected or already dialed one), leads to at most one substream request for exactly its protocol on a "
             "connection to its peer, and resolves with the outcome of its attempt (the negotiated stream, UnsupportedProtocol(p), "
-            "or Io with a cause: failed dial, closed connection, failed negotiation); after everything the environment was asked "
+            "or Io with a cause: failed dial - propagated as NotConnected to every open_stream that waited for that dial -, closed "
+            "connection, failed negotiation); after everything the environment was asked "
             "has been answered no open_stream is left waiting.",
     "note": "Extension component (not in properties.jsonl). The driver emulates Swarm::dial's PeerCondition check and delivers "
             "ConnectionEstablished / ConnectionClosed atomically with handler creation / drop. Shared::sender picks a random "
